@@ -6,8 +6,14 @@ import EaselModel.Shuffle.Lemmas
 namespace EaselModel.Shuffle
 open EaselModel.Random CNum
 
+/-- Round 6: every field is valid for EVERY binary64 value (signed zeros, infinities, NaN included), `=` meaning equality of bit
+    patterns. The former field `add a zero = a` was not (`-0.0 + 0.0 = +0.0`): it is replaced by the two facts actually used —
+    `0.0 + 0.0 = 0.0`, and "adding `+0.0` to the running sum does not change the outcome of DChoose's test". The laws are PROVED for
+    the IEEE-754 carrier `Ieee ρ` (any monotone rounding `ρ`, `IeeeCarrier.lean`) and for ℚ (`LawfulRat.lean`). -/
 class LawfulCNum (α : Type) [CNum α] : Prop where
-  add_zero : ∀ a : α, add a zero = a
+  /-- `u < (a + 0.0) / n` has the value of `u < a / n` (for `a = -0.0` the two quotients are zeros of opposite sign or both NaN) -/
+  add_zero_cmp : ∀ a u n : α, lt u (div (add a zero) n) = lt u (div a n)
+  zero_add_zero : add (zero : α) zero = zero
   /-- `0 / d = 0` when `0 < d` -/
   zero_div_pos : ∀ d : α, lt zero d = true → div zero d = zero
   /-- `0 / (double) n = 0` for an integer `n > 0` -/
@@ -32,7 +38,7 @@ theorem dchooseGo_nonzero (u norm : α) : ∀ (ps : List α) (sum : α) (i k : N
       cases h
       refine ⟨Nat.le_refl _, q, by simp, ?_⟩
       intro hq
-      rw [hq, LawfulCNum.add_zero] at hlt
+      rw [hq, LawfulCNum.add_zero_cmp] at hlt
       rw [hprev] at hlt
       cases hlt
     · rename_i hnlt
@@ -78,6 +84,71 @@ theorem iidLoop_support (p : List α) : ∀ (n : Nat) (r : Rng) (acc out : Array
         · subst hk; exact hnew)
       exact ⟨by simp at h1; omega, h2⟩
     · simp at h
+
+/-! ## the same with any notion `Z` of "zero entry" that the test cannot see (round 6)
+For binary64 `Z q` = "`q == 0.0` in C's sense" (`+0.0` or `-0.0`): `IeeeCarrier.lean` proves the hypothesis `hZ` for it, so an entry
+`-0.0` is never chosen either. `dchooseGo_nonzero` is the instance `Z q := q = zero`. -/
+section anyZero
+omit [LawfulCNum α]
+variable (Z : α → Prop) (hZ : ∀ z, Z z → ∀ a u n : α, lt u (div (add a z) n) = lt u (div a n))
+include hZ
+
+theorem dchooseGo_notZ (u norm : α) : ∀ (ps : List α) (sum : α) (i k : Nat),
+    lt u (div sum norm) = false → dchooseGo u norm ps sum i = some k →
+    i ≤ k ∧ ∃ q, ps[k - i]? = some q ∧ ¬ Z q := by
+  intro ps
+  induction ps with
+  | nil => intro sum i k _ h; simp [dchooseGo] at h
+  | cons q rest ih =>
+    intro sum i k hprev h
+    simp only [dchooseGo] at h
+    split at h
+    · rename_i hlt
+      cases h
+      refine ⟨Nat.le_refl _, q, by simp, ?_⟩
+      intro hq
+      rw [hZ q hq] at hlt
+      rw [hprev] at hlt
+      cases hlt
+    · rename_i hnlt
+      have hnlt' : lt u (div (add sum q) norm) = false := by
+        cases hb : lt u (div (add sum q) norm) with
+        | false => rfl
+        | true => exact absurd hb hnlt
+      obtain ⟨h1, q', h2, h3⟩ := ih (add sum q) (i+1) k hnlt' h
+      refine ⟨by omega, q', ?_, h3⟩
+      rw [show k - i = (k - (i+1)) + 1 by omega]
+      simpa using h2
+
+theorem dchoose_notZ (u : α) (p : List α) (k : Nat) (h0 : lt u (div zero (p.foldl add zero)) = false)
+    (h : dchoose u p = some k) : ∃ q, p[k]? = some q ∧ ¬ Z q := by
+  unfold dchoose at h
+  obtain ⟨_, q, h2, h3⟩ := dchooseGo_notZ Z hZ _ _ p zero 0 k h0 h
+  exact ⟨q, by simpa using h2, h3⟩
+
+theorem iidLoop_support_notZ (p : List α) (h0 : ∀ x : Nat, lt (div (ofNat x) (ofNat 4294967296)) (div zero (p.foldl add zero)) = false) :
+    ∀ (n : Nat) (r : Rng) (acc out : Array Nat),
+    (iidLoop p n r acc).1 = some out →
+    (∀ k ∈ acc, ∃ q, p[k]? = some q ∧ ¬ Z q) → out.size = acc.size + n ∧ ∀ k ∈ out, ∃ q, p[k]? = some q ∧ ¬ Z q := by
+  intro n
+  induction n with
+  | zero => intro r acc out h hacc; simp only [iidLoop] at h; cases h; exact ⟨rfl, hacc⟩
+  | succ n ih =>
+    intro r acc out h hacc
+    simp only [iidLoop] at h
+    obtain ⟨x, hx⟩ : ∃ x, (randomNum (α := α) r).1 = div (ofNat x) (ofNat 4294967296) := ⟨(r.randomNum).1, rfl⟩
+    split at h
+    · rename_i i hi
+      rw [hx] at hi
+      have hnew := dchoose_notZ Z hZ _ p i (h0 x) hi
+      obtain ⟨h1, h2⟩ := ih _ (acc.push i) out h (by
+        intro k hk
+        rcases Array.mem_push.mp hk with hk | hk
+        · exact hacc k hk
+        · subst hk; exact hnew)
+      exact ⟨by simp at h1; omega, h2⟩
+    · simp at h
+end anyZero
 
 /-! ## order-0 Markov -/
 /-- a count that is never incremented stays zero -/
